@@ -10,6 +10,7 @@ mod p_editword;
 mod p_multigen;
 mod p_pipe;
 mod p_proc;
+mod p_post;
 mod p_tok;
 mod p_windows;
 mod p_words;
@@ -40,6 +41,7 @@ fn component(name: &str) -> (ExecFn, GenFn) {
         "windows" => (p_windows::exec, p_windows::gen),
         "cstr" => (p_cstr::exec, p_cstr::gen),
         "proc" => (p_proc::exec, p_proc::gen),
+        "post" => (p_post::exec, p_post::gen),
         "ws" => (p_ws::exec, p_ws::gen),
         "bpetrain" => (p_bpetrain::exec, p_bpetrain::gen),
         "tok" => (p_tok::exec, p_tok::gen),
